@@ -33,7 +33,7 @@ func genBody(r *lib.Rand, id uint64, small bool) string {
 		seen[f] = true
 		v := pickS(r, valuePool)
 		if f == "n" {
-			v = pickS(r, []string{`4`, `5`, `null`, `"x"`, `4`}) // "x" is rejected once the schema is active
+			v = pickS(r, []string{`4`, `5`, `null`, `"x"`, `4`, `"y"`}) // theSchema rejects strings, schema2 numbers
 		}
 		parts = append(parts, fmt.Sprintf(`"%s":%s`, f, v))
 		// explicit stamps now and then
@@ -48,6 +48,9 @@ func genBody(r *lib.Rand, id uint64, small bool) string {
 			case 3:
 				parts = append(parts, fmt.Sprintf(`"%s_time":null`, f))
 			}
+		} else if r.Chance(0.03) && f != "user" {
+			// a stamp that is not a string: the request must be rejected
+			parts = append(parts, fmt.Sprintf(`"%s_%s":%s`, f, pickS(r, []string{"time", "user"}), pickS(r, []string{`5`, `[1]`, `true`})))
 		}
 	}
 	return "{" + strings.Join(parts, ",") + "}"
@@ -63,10 +66,17 @@ func stdReads(ids []uint64, absent uint64) []ReadSpec {
 		{Kind: "key", ID: absent},
 		{Kind: "keyvalues", Keys: append([]uint64{absent}, ids...), Show: 2},
 		{Kind: "meta", Meta: 0}, {Kind: "meta", Meta: 1}, {Kind: "meta", Meta: 2},
+		{Kind: "fieldtimes"}, {Kind: "schemainforce"},
+		{Kind: "headmeta", Meta: 0}, {Kind: "headmeta", Meta: 1}, {Kind: "headkey", ID: absent},
+		{Kind: "keyvalues", Keys: append([]uint64{absent}, ids...), Enc: 1}, {Kind: "keyvalues", Keys: append([]uint64{absent}, ids...), Show: 3, Enc: 2},
+		{Kind: "krv", A: "1", B: "15", Enc: 1}, {Kind: "krv", A: "2", B: "100", Show: 1, Enc: 2}, {Kind: "krv", A: "0", B: "a", Fm: []string{"a"}, Enc: 2},
 	}
 	for i, id := range ids {
 		if i < 3 {
 			rs = append(rs, ReadSpec{Kind: "key", ID: id, Show: 3})
+		}
+		if i < 2 {
+			rs = append(rs, ReadSpec{Kind: "headkey", ID: id})
 		}
 	}
 	if len(ids) > 0 {
@@ -76,7 +86,7 @@ func stdReads(ids []uint64, absent uint64) []ReadSpec {
 		`{"a":1}`, `{"a":[1,2,-1]}`, `{"s":"x"}`, `{"s":["x","y"]}`, `{"s":"re/^x"}`, `{"s":["re/y$","x"]}`, `{"s":"re/("}`,
 		`{"zz":"exists/0"}`, `{"a":"exists/1"}`, `{"a":"exists/0","s":"exists/1"}`, `[{"a":1},{"b":"exists/1"}]`,
 		`{"a":1.5}`, `{"a":[1.5,2.25]}`, `{"a":1,"s":"x"}`, `{"a_user":"re/^u"}`, `{"f":true}`, `{"b":null}`,
-		`[{},{"a":7}]`, `{"c":["x",2]}`, `{"user":"x"}`, `{"a":-1}`,
+		`[{},{"a":7}]`, `{"c":["x",2]}`, `{"c":[2,"x"]}`, `{"a":[2.25,"x",1.5]}`, `{"user":"x"}`, `{"a":-1}`,
 	}
 	for i, q := range qs {
 		r := ReadSpec{Kind: "query", Query: q}
@@ -99,6 +109,44 @@ func stdReads(ids []uint64, absent uint64) []ReadSpec {
 	rs = append(rs, ReadSpec{Kind: "query", Query: `[]`})
 	return rs
 }
+
+// reads of named versions, the same in every phase
+func refReads(ids []uint64, withBranch bool) []RefRead {
+	refs := []VRef{{N: 0}, {N: -2}, {N: -1}}
+	if withBranch {
+		refs = append(refs, VRef{B: true, N: -1}, VRef{B: true, N: 0})
+	}
+	id0 := uint64(10)
+	if len(ids) > 0 {
+		id0 = ids[0]
+	}
+	reads := []ReadSpec{
+		{Kind: "keys"}, {Kind: "all", Show: 3}, {Kind: "counts"}, {Kind: "fields"}, {Kind: "fieldtimes"},
+		{Kind: "keyrange", A: "0", B: "a"}, {Kind: "krv", A: "1", B: "150", Show: 1}, {Kind: "krv", A: "2", B: "40", Enc: 2},
+		{Kind: "query", Query: `{"a":1}`, Fm: []string{"a", "b"}}, {Kind: "query", Query: `{"zz":"exists/0"}`, OnlyID: true},
+		{Kind: "headkey", ID: id0}, {Kind: "key", ID: id0, Show: 3}, {Kind: "keyvalues", Keys: append([]uint64{999}, ids...), Enc: 2},
+		{Kind: "meta", Meta: 1}, {Kind: "headmeta", Meta: 0},
+	}
+	var out []RefRead
+	for _, ref := range refs {
+		for _, rd := range reads {
+			out = append(out, RefRead{Ref: ref, Read: rd})
+		}
+	}
+	return out
+}
+
+// phase 0: the branch head and committed versions configured "inmemory", restart; phase 1: no
+// configuration, restart: every version must answer alike in both
+func cfgPhases(ids []uint64, withBranch bool, static []VRef) []PhaseSpec {
+	rr := refReads(ids, withBranch)
+	return []PhaseSpec{
+		{Ops: []OpSpec{{Kind: "config", CfgBranch: withBranch, CfgStatic: static}, {Kind: "reload"}}, Reads: rr},
+		{Ops: []OpSpec{{Kind: "config"}, {Kind: "reload"}}, Reads: rr},
+	}
+}
+
+func onB(op OpSpec) OpSpec { op.Branch = true; return op }
 
 func post(id uint64, body string) OpSpec { return OpSpec{Kind: "post", Key: id, Body: body} }
 func del(id uint64) OpSpec              { return OpSpec{Kind: "delete", Key: id} }
@@ -135,6 +183,48 @@ func corpus() []CaseSpec {
 		{Kind: "commit"}, {Kind: "reload"}, {Kind: "newversion"}, post(11, `{"bodyid":11,"n":"x"}`),
 		{Kind: "metadelete", Meta: 1}, {Kind: "metapost", Meta: 2, Val: `[1]`}},
 		Reads: stdReads([]uint64{10, 11}, 15)})
+	// (f) fieldtimes: last-posted stamp vs newest stamp, and fields that disappear
+	cs = append(cs, CaseSpec{Name: "corpus-fieldtimes", Ops: []OpSpec{
+		post(10, `{"bodyid":10,"a":1,"a_time":"2020-01-01T00:00:00Z"}`),
+		post(20, `{"bodyid":20,"a":1,"a_time":"2022-01-01T00:00:00Z"}`),
+		post(10, `{"bodyid":10,"b":1,"b_time":"2021-01-01T00:00:00Z"}`),
+		post(30, `{"bodyid":30,"c":1}`), del(30)},
+		Reads: stdReads([]uint64{10, 20, 30}, 15)})
+	// (h) the deleted JSON schema stays in force
+	cs = append(cs, CaseSpec{Name: "corpus-schema-delete", Ops: []OpSpec{
+		{Kind: "metapost", Meta: 0, Val: theSchema}, post(10, `{"bodyid":10,"n":4}`), post(11, `{"bodyid":11,"n":"x"}`),
+		{Kind: "metadelete", Meta: 0}, post(12, `{"bodyid":12,"n":"x"}`),
+		{Kind: "metapost", Meta: 0, Val: schema2}, post(13, `{"bodyid":13,"n":"x"}`), post(14, `{"bodyid":14,"n":4}`),
+		post(15, `{"bodyid":15,"a":1,"a_time":5}`), post(15, `{"bodyid":15,"a":1,"a_user":[1]}`),
+		{Kind: "metadelete", Meta: 0}, post(16, `{"bodyid":16,"n":7}`)},
+		Reads: stdReads([]uint64{10, 11, 12, 13}, 17)})
+	// a second branch, its HEAD db and read-only UUID dbs
+	cs = append(cs, CaseSpec{Name: "corpus-branch", Ops: []OpSpec{
+		post(10, `{"bodyid":10,"a":1}`), post(20, `{"bodyid":20,"a":2,"s":"x"}`), {Kind: "commit"}, {Kind: "newversion"},
+		post(30, `{"bodyid":30,"a":1}`), {Kind: "branch", From: 0}, {Kind: "branch", From: 0},
+		onB(post(40, `{"bodyid":40,"b":1}`)), onB(del(10)), onB(OpSpec{Kind: "metapost", Meta: 1, Val: `{"on":"b"}`}),
+		{Kind: "config", CfgBranch: true, CfgStatic: []VRef{{N: 0}}}, {Kind: "reload"},
+		onB(post(20, `{"bodyid":20,"a":null,"c":[1,2]}`)), onB(OpSpec{Kind: "commit"}), onB(post(41, `{"bodyid":41}`)),
+		onB(OpSpec{Kind: "newversion"}), onB(post(50, `{"bodyid":50,"b":3,"b_time":"2021-01-01T00:00:00Z"}`)), onB(del(40)),
+		post(31, `{"bodyid":31,"a":7}`), del(10)},
+		Reads: stdReads([]uint64{10, 20, 30}, 15), Phases: cfgPhases([]uint64{10, 20, 40, 50}, true, []VRef{{N: 0}, {B: true, N: 0}})})
+	// (m) the configuration names the branch before it exists
+	cs = append(cs, CaseSpec{Name: "corpus-config-before-branch", Ops: []OpSpec{
+		post(10, `{"bodyid":10,"a":1}`), {Kind: "commit"}, {Kind: "config", CfgBranch: true}, {Kind: "reload"},
+		{Kind: "newversion"}, {Kind: "branch", From: 0}, onB(post(30, `{"bodyid":30,"b":1}`))},
+		Reads: stdReads([]uint64{10}, 15),
+		Phases: []PhaseSpec{{Reads: refReads([]uint64{10, 30}, true)}, {Ops: []OpSpec{{Kind: "config"}, {Kind: "reload"}}, Reads: refReads([]uint64{10, 30}, true)}}})
+	// (n) the configuration names a version that is still open
+	cs = append(cs, CaseSpec{Name: "corpus-config-open-version", Ops: []OpSpec{
+		post(10, `{"bodyid":10,"a":1}`), {Kind: "config", CfgStatic: []VRef{{N: 0}}}, {Kind: "reload"},
+		post(20, `{"bodyid":20,"a":1}`), del(10), {Kind: "commit"}, {Kind: "newversion"}},
+		Reads: stdReads([]uint64{10, 20}, 15), Phases: cfgPhases([]uint64{10, 20}, false, nil)})
+	// datastore defect met by the branch histories: a restart loses the head of master when its
+	// committed leaf has a child on the branch only (finding C16-lost-master-head, class 11)
+	cs = append(cs, CaseSpec{Name: "corpus-lost-master-head", Ops: []OpSpec{
+		post(10, `{"bodyid":10,"a":1}`), {Kind: "metapost", Meta: 1, Val: `{"x":1}`}, {Kind: "commit"},
+		{Kind: "branch", From: 0}, {Kind: "reload"}, {Kind: "newversion"}, post(20, `{"bodyid":20,"a":1}`)},
+		Reads: stdReads([]uint64{10, 20}, 15)})
 	// field merge rules
 	cs = append(cs, CaseSpec{Name: "corpus-stamps", Ops: []OpSpec{
 		post(7, `{"bodyid":7,"a":1,"s":"x","b":[1,2],"a_time":"2020-01-01T00:00:00Z"}`),
@@ -200,7 +290,7 @@ func genCase(r *lib.Rand, name string, thorough bool) CaseSpec {
 			m := r.Intn(3)
 			val := pickS(r, []string{`{"x":1}`, `[1,2]`, `"v"`})
 			if m == 0 {
-				val = theSchema
+				val = pickS(r, []string{theSchema, theSchema, schema2})
 			}
 			ops = append(ops, OpSpec{Kind: "metapost", Meta: m, Val: val})
 		case x < 80:
@@ -240,6 +330,69 @@ func genCase(r *lib.Rand, name string, thorough bool) CaseSpec {
 		}
 	}
 	_ = locked
+	// half of the histories get a second branch: created from the root once it is committed, then
+	// requests on its head interleaved with those on master
+	var phases []PhaseSpec
+	if r.Chance(0.5) {
+		var out []OpSpec
+		mlocked, mlen, haveB, bLocked, bLen := false, 0, false, false, 0
+		for _, op := range ops {
+			out = append(out, op)
+			switch op.Kind {
+			case "commit":
+				mlocked = true
+			case "newversion":
+				if mlocked {
+					mlocked, mlen = false, mlen+1
+				}
+			}
+			committedRoot := mlen > 0 || mlocked
+			if !haveB && committedRoot && r.Chance(0.5) {
+				out = append(out, OpSpec{Kind: "branch", From: 0})
+				haveB = true
+			}
+			if haveB && r.Chance(0.35) {
+				id := pick()
+				switch x := r.Intn(10); {
+				case x < 5:
+					out = append(out, onB(post(id, genBody(r, id, false))))
+				case x < 7:
+					out = append(out, onB(del(id)))
+				case x < 8:
+					out = append(out, onB(OpSpec{Kind: "metapost", Meta: r.Intn(3), Val: pickS(r, []string{theSchema, schema2, `{"b":1}`})}))
+				case x < 9:
+					out = append(out, onB(OpSpec{Kind: "commit"}))
+					if !bLocked {
+						bLocked = true
+					}
+					if r.Chance(0.8) {
+						out = append(out, onB(OpSpec{Kind: "newversion"}))
+						bLocked, bLen = false, bLen+1
+					}
+				default:
+					// the branch head in memory from here on
+					st := []VRef{}
+					if committedRoot {
+						st = append(st, VRef{N: 0})
+					}
+					if bLen > 0 {
+						st = append(st, VRef{B: true, N: 0})
+					}
+					out = append(out, OpSpec{Kind: "config", CfgBranch: true, CfgStatic: st}, OpSpec{Kind: "reload"})
+				}
+			}
+		}
+		ops = out
+		if haveB {
+			st := []VRef{{N: 0}}
+			if bLen > 0 {
+				st = append(st, VRef{B: true, N: 0})
+			}
+			phases = cfgPhases(ids, true, st)
+		}
+	} else if r.Chance(0.3) {
+		phases = cfgPhases(ids, false, []VRef{{N: 0}, {N: -2}})
+	}
 	absent := uint64(151 + r.Intn(9))
 	reads := stdReads(ids, absent)
 	// a few random reads
@@ -253,13 +406,10 @@ func genCase(r *lib.Rand, name string, thorough bool) CaseSpec {
 		case 2:
 			f := pickS(r, fieldPool)
 			v := pickS(r, valuePool)
-			if v == `[1,"x"]` { // a number followed by a string in a query list panics in checkField (reported, not generated)
-				v = `["x",1]`
-			}
 			reads = append(reads, ReadSpec{Kind: "query", Query: fmt.Sprintf(`{"%s":%s}`, f, v), Show: r.Intn(4), OnlyID: r.Chance(0.3)})
 		case 3:
 			reads = append(reads, ReadSpec{Kind: "all", Fm: []string{pickS(r, fieldPool), pickS(r, fieldPool) + "_user"}, Show: r.Intn(4)})
 		}
 	}
-	return CaseSpec{Name: name, Ops: ops, Reads: reads}
+	return CaseSpec{Name: name, Ops: ops, Reads: reads, Phases: phases}
 }
